@@ -44,6 +44,22 @@ def cases(tier, seed):
             s["par"] = 2
         s["seed"] = R.randrange(1 << 30)
         out.append(s)
+    # sequences of walks in ONE process: state left behind by one walk (readiness tables, queues, counters) must not leak
+    # into the next one. Directed part: walk A has a tile T that the filter accepts although none of its children is
+    # accepted (T stays pre-readied); walk B has T as an ordinary live parent at least two levels above the leaves.
+    for i in range(24 if tier == "quick" else 400):
+        d = R.choice([3, 4])
+        n = R.randrange(1, d - 1)
+        T = (n, R.randrange(1 << n), R.randrange(1 << n))
+        other = [p for p in rq.all_positions(d, d) if not rq.is_under(p, T)]
+        accA = gens.closure(R.sample(other, min(3, len(other))) + [T])
+        wa = dict(kind="filtered", depth=d, apex=None, accepted=sorted(accA), coordsys="astronomical", family="childless-T")
+        wb = R.choice([dict(kind="generic", depth=d, apex=None, accepted=None, coordsys="astronomical"),
+                       dict(kind="toast", depth=d, apex=None, accepted=None, coordsys="astronomical"),
+                       dict(kind="generic", depth=d, apex=list(rq.parent(T)) if n >= 2 else None, accepted=None, coordsys="astronomical")])
+        walks = [wa, wb] if i % 3 else [gens.gen_pyramid(R, maxdepth=3, mindepth=2, sub_p=0.3), wa, wb]
+        out.append(dict(t="seq", walks=walks, par=R.choice([2, 3, 4]), profile=R.choice(["straggler", "straggler", "jitter", "natural"]), seed=R.randrange(1 << 30),
+                        kind="seq", depth=d, apex=None))
     # directed: apex equal to a leaf, depth 0 and 1, filter disjoint from the apex, accept-parent-but-no-children
     for par in (1, 2, 4):
         out.append(dict(kind="generic", depth=0, apex=None, accepted=None, par=par, profile="natural", seed=par, coordsys="astronomical"))
@@ -157,7 +173,80 @@ def check_history(recs, ops, outcome, info):
     return v
 
 
+def run_seq(spec, workdir):
+    """several walks one after the other in one (forked) process; the oracle is applied to each walk's segment of the log"""
+    par = spec["par"]
+    instr_mp.install(spec["profile"], spec["seed"])
+    log = os.path.join(workdir, "log-seq")
+    evlog.open_log(log)
+    infos = []
+    for w in spec["walks"]:
+        apex = tuple(w["apex"]) if w.get("apex") else (0, 0, 0)
+        acc = gens.resolve_accepted(w)
+        infos.append((rq.leaves(w["depth"], acc, apex), rq.live_parents(w["depth"], acc, apex)))
+
+    def fn():
+        for i, w in enumerate(spec["walks"]):
+            ops = infos[i][1]
+            mdir = os.path.join(workdir, "m-seq-%d" % i)
+            os.makedirs(mdir, exist_ok=True)
+            pyr = gens.build_pyramid(w)
+
+            def cb(pos, i=i, ops=ops, mdir=mdir):
+                p = (int(pos.n), int(pos.x), int(pos.y))
+                evlog.ev("cb_start", pos=p, w=i)
+                for c in rq.children(p):
+                    if c in ops and not os.path.exists(os.path.join(mdir, "%d_%d_%d" % c)):
+                        evlog.ev("marker_missing", pos=p, child=c, w=i)
+                instr_mp.cb_delay(p)
+                open(os.path.join(mdir, "%d_%d_%d" % p), "w").close()
+                evlog.ev("cb_end", pos=p, w=i)
+
+            evlog.ev("walk_begin", w=i)
+            pyr.walk(cb, parallel=par)
+            evlog.ev("walk_end", w=i)
+
+    outcome, info = models.run_stage(fn, log, "walk", watchdog=120)
+    recs = evlog.read(log)
+    evlog.close_log()
+    if outcome == "watchdog":
+        return dict(status="inconclusive", detail="watchdog")
+    v = []
+    done = {r["w"] for r in recs if r["k"] == "walk_end"}
+    for i, w in enumerate(spec["walks"]):
+        seg = []
+        on = False
+        for r in recs:
+            if r["k"] == "walk_begin" and r["w"] == i:
+                on = True
+            elif r["k"] == "walk_end" and r["w"] == i:
+                seg.append(dict(r, k="stage_ret"))
+                on = False
+            elif on and (r.get("w", i) == i):
+                seg.append(r)
+        if i in done:
+            vi = check_history(seg, infos[i][1], "returned", {})
+        elif i == len(done):
+            vi = check_history(seg, infos[i][1], outcome, info)  # the walk during which the stage got stuck / raised
+        else:
+            vi = []
+        v += [("walk#%d-after-%d-earlier:%s" % (i, i, k) if i else k, "walk #%d of the sequence: %s" % (i, t)) for k, t in vi]
+    if outcome != "returned" and not v:
+        v.append(("walk-" + outcome, "sequence outcome %s %s" % (outcome, info)))
+    counters = collections.Counter(sequences=1, sequence_walks=len(spec["walks"]))
+    counters["runs_profile_" + spec["profile"]] += 1
+    res = dict(counters=dict(counters), nontrivial=True, sets=dict(interleaving_signatures=[models.signature(recs)]),
+               sample=dict(walks=[{k: v_ for k, v_ in w.items() if k != "accepted"} for w in spec["walks"]], par=par, profile=spec["profile"], outcome=outcome))
+    if v:
+        keys = sorted({k.split(":")[-1] if k.startswith("walk#") else k for k, _ in v})
+        first = [k for k, _ in v if k.startswith("walk#")]
+        res.update(status="violation", key=("state-leak-between-walks:" if first else "") + "+".join(keys)[:100], detail="; ".join(t for _, t in v[:5]), witness_files=dict(eventlog=log))
+    return res
+
+
 def run_case(spec, workdir):
+    if spec.get("t") == "seq":
+        return run_seq(spec, workdir)
     depth = spec["depth"]
     apex = tuple(spec["apex"]) if spec.get("apex") else (0, 0, 0)
     acc = gens.resolve_accepted(spec)
